@@ -27,11 +27,7 @@ Proof. exact (packet_tiles s b fs pl). Qed.
 (* consequently a no-compression rule reproduces the packet *)
 Theorem c07_no_compression ct s b fs pl r d : factory s b = Ok (fs, pl) -> rule_nature r = NoCompression -> rule_fds r = [] ->
   exists c, compress (mkpdesc Up fs pl) r d = Ok c /\ decompress ct c r d = Ok b.
-Proof.
-  intros H Hn Hf. exists (rule_id r ++ b). split.
-  - apply compress_layout. unfold layout. rewrite Hn. cbn [pd_fields pd_payload]. now rewrite (packet_tiles s b fs pl H).
-  - apply decompress_nocompression. exact Hf.
-Qed.
+Proof. exact (packet_no_compression ct s b fs pl r d). Qed.
 
 (* the same at the byte level: the byte-level parsers (ParserBytes.v: every slice, comparison and integer read as buffer.py
    performs it on bytes) applied to a canonical left-padded packet Buffer give field Buffers and a payload Buffer whose bits,
